@@ -94,11 +94,14 @@ class GroupHandler(Handler):
 
     # --------------------------------------------------------------------------
     #
-    def __init__(self, group):
+    def __init__(self, group, ranks):
         self._group = group
+        self._ranks = ranks
 
     def is_alive(self):
-        return not self._group.inactive_puids
+        # `inactive_puids` lists the processes which exited already - the group
+        # is done once all ranks are listed
+        return len(self._group.inactive_puids) < self._ranks
 
 
     # --------------------------------------------------------------------------
@@ -323,7 +326,7 @@ class Server(object):
         group.init()
         group.start()
 
-        handler = GroupHandler(group)
+        handler = GroupHandler(group, ranks)
 
         task['dragon_handler'] = (handler, ranks)
 
